@@ -65,8 +65,8 @@ CHECKS = {
          'Two writers contending on the same key / on two stores in opposite order / splitting the same leaf, with commit budgets of 5 s and 1 min on the virtual clock: every schedule with at most 1 deviation, and additionally for EVERY scheduling point k of thread 0 the execution where thread 0 stalls forever at k holding whatever it holds. No deadlock or livelock may occur, every live Commit must return within maxTime + 1 virtual second, and when all transactions ended by themselves a later transaction on the same keys must commit once maxTime has elapsed.',
          'Virtual time advances only through sop.Sleep / backoff; caller context deadlines are not varied; in-memory L2.', '6/C15', 'SCHED', True),
  'C28': ('exploration', 'stateless model checking at shardedMap-primitive granularity with a TTL clock thread and full shards; lock-table model at every call return',
-         'Two or three owners running 1-3 of {Lock, DualLock, IsLocked, IsLockedTTL, Unlock, foreign Unlock} over keys a,b (same order, opposite order, an unrelated key in the same shard) plus a clock thread that lets the TTL elapse at any position, for shard capacities 1000, 2 and 1 with pre-filled shards; every schedule with at most 2 deviations where each load/store/loadOrStore/compareAndSwap/compareAndDelete of the real cache is a scheduling point. At every call return: at most one owner holds a key unexpired (granted true, not released, TTL counted from the issue of the call), and a sole holder still owns its record in the service.',
-         'ONLY the in-memory lock service: the Redis adapter (adapters/redis/locker.go) is not exercised because no Redis server or miniredis is available offline.', '6/C28', 'SCHED', True),
+         'Two or three owners running 1-3 of {Lock, DualLock, IsLocked, IsLockedTTL, Unlock, foreign Unlock} over keys a,b (same order, opposite order, an unrelated key in the same shard) plus a clock thread that lets the TTL elapse at any position, for shard capacities 1000, 2 and 1 with pre-filled shards, and the same programs through the Redis adapter against a fake RESP server on the virtual clock; every schedule with at most 2 deviations where each load/store/loadOrStore/compareAndSwap/compareAndDelete of the in-memory cache, respectively each Redis command or pipeline, is a scheduling point. At every call return: at most one owner holds a key unexpired (granted true, not released, TTL counted from the issue of the call), and a sole holder still owns its record in the service.',
+         'The Redis adapter (adapters/redis/locker.go) runs against a minimal RESP2 server written for this purpose (mc/fakeredis; its command semantics are part of the trusted base; a pipeline executes as one step; no real Redis or miniredis is available offline).', '6/C28', 'SCHED', True),
  'C35': ('exploration', 'exhaustive session operation sequences to depth 4 (5) on the real SessionStore with a virtual clock + exhaustive token mutation classes',
          'In-package harness (overlay-injected test file in tools/httpserver, time.Now replaced by a virtual clock): every sequence of length <= 4 (5) over {CreateSession, CreateToken, Refresh(any issued refresh token), RevokeToken(any token), ValidateToken, clock += ttl-1s / ttl+1s / refreshTTL+1s, RotateSecret}; after each sequence every issued access token is validated against a session-table model. Forged tokens: every single-character change of every part, part swaps, re-signing with 7 other secrets, claim edits, alg none/HS384/HS512/RS256, every truncation, empty/extra parts.',
          'HTTP handlers and cookies not covered; the instant now == exp is undecided.', '6/C35', 'SEQX', True),
